@@ -188,7 +188,10 @@ class ParallelTemperedChain(BaseChain):
             Dictionary of ``tk -> chains[tk].state``, where ``tk`` is the
             index of each temperature chain.
         """
-        return {tk: chain.state for tk, chain in enumerate(self.chains)}
+        state = {tk: chain.state for tk, chain in enumerate(self.chains)}
+        if self.adaptive_annealer is not None:
+            state['adaptive_annealer'] = self.adaptive_annealer.state
+        return state
 
     def set_state(self, state):
         """Sets the state of the chain using the given dict.
@@ -203,8 +206,14 @@ class ParallelTemperedChain(BaseChain):
             Dictionary of ``tk -> dict`` mapping indices of the temperature
             chains to the state they should be set to.
         """
+        state = state.copy()
+        annealer_state = state.pop('adaptive_annealer', None)
         for tk in state:
             self.chains[tk].set_state(state[tk])
+            # the ladder may have been adapted
+            self._betas[tk] = self.chains[tk].beta
+        if annealer_state is not None and self.adaptive_annealer is not None:
+            self.adaptive_annealer.set_state(annealer_state)
 
     @property
     def hasblobs(self):
@@ -656,6 +665,17 @@ class DynamicalAnnealer:
         self._S = numpy.log(numpy.diff(1.0/betas[:-1]))
         if self._Tmax_prior:
             betas[-1] = 0.0
+
+    @property
+    def state(self):
+        """The current state of the annealer: the log temperature differences
+        of the ladder it is adapting.
+        """
+        return {'S': self._S.copy()}
+
+    def set_state(self, state):
+        """Sets the state of the annealer."""
+        self._S = state['S'].copy()
 
     def _decay(self, iteration):
         """ Vanishign decay to ensure detailed balance at later stages. Is set
